@@ -117,19 +117,22 @@ theorem gen_invertSA (sa sainv : GSlice Int32) (hsa : GWF sa) (hsi : GWF sainv)
       s'.arr.drop sainv.len = sainv.arr.drop sainv.len := by
   obtain ⟨s', e1, e2, e3, e4, _, e6⟩ := invert_loop_eq sa hsa h31 sa.len hr sa.len 0 sainv (by omega) hsi hlen.symm
   refine ⟨s', ?_, ?_, e3, e4, e6⟩
-  · unfold suffix_InvertSA
-    have : ¬ (Int.ofNat sa.len ≠ Int.ofNat sainv.len) := by simp [hlen]
-    simp only [this, if_false]
-    have e1' : suffix_InvertSA_loop_1 sa sa.len 0 sainv = Res.ok s' := by simpa using e1
-    simp only [e1', bind_ok]
+  · have e1' : suffix_InvertSA_loop_1 sa sa.len 0 sainv = Res.ok s' := by simpa using e1
+    unfold suffix_InvertSA
+    split
+    · rename_i hne
+      exact absurd hlen (by simp only [Int.ofNat_eq_natCast] at hne; omega)
+    · simp only [e1', bind_ok]
   · rw [e2, invertFrom_eq_steps, absI32_size hsa]
 
 /-- S01': the explicit panic -/
 theorem gen_invertSA_panic (sa sainv : GSlice Int32) (hlen : sa.len ≠ sainv.len) :
     suffix_InvertSA sa sainv = Res.panic := by
   unfold suffix_InvertSA
-  have : Int.ofNat sa.len ≠ Int.ofNat sainv.len := fun e => hlen (Int.ofNat.inj e)
-  rw [if_pos this]
+  split
+  · rfl
+  · rename_i hne
+    exact absurd hlen (by simp only [Int.ofNat_eq_natCast] at hne; omega)
 
 /-! ### every entry is written: the start table is irrelevant for a permutation -/
 
@@ -183,6 +186,20 @@ theorem invertFrom_eq_invertSA (sa init : Array Nat) (hs : init.size = sa.size)
 
 /-! ## S02 `_lcp` = the checked Kasai loop -/
 
+/-- `split` the next `if` of the goal and close the branch that contradicts the known fact `h`
+    (whatever the order of the operands of `=` in the translated condition) -/
+local macro "split_by " h:ident : tactic =>
+  `(tactic| (split <;> try (rename_i hc
+                            first
+                              | exact absurd $h hc
+                              | exact absurd (Eq.symm $h) hc
+                              | exact absurd hc $h
+                              | exact absurd (Eq.symm hc) $h)))
+
+/-- an `Int32` comparison hypothesis (in whatever form `split` produced it) as a fact about `toInt` -/
+local macro "i32_norm " "at " h:ident : tactic =>
+  `(tactic| simp only [gt_iff_lt, ge_iff_le, i32_lt_iff, i32_le_iff, i32_eq_iff, i32_zero, i32_one, Int32.not_lt, Int32.not_le, ne_eq] at $h:ident)
+
 theorem lcp_loop_chk (matchLen : Slice → Slice → Int) (hml : MatchLenSpec matchLen)
     (t : Slice) (sa sainv : GSlice Int32) (ht : SWF t) (hsa : GWF sa) (hsi : GWF sainv)
     (hnsa : NonNeg sa) (hnsi : NonNeg sainv) (ht31 : t.len ≤ 2147483647) (hi31 : sainv.len ≤ 2147483647) :
@@ -215,7 +232,7 @@ theorem lcp_loop_chk (matchLen : Slice → Slice → Int) (hml : MatchLenSpec ma
     · -- lcp[0] = 0; l = 0
       have hk' : i32n k = 0 := hkz.1 hk
       simp only [hk', if_true] at h
-      simp only [hk, if_true]
+      split_by hk
       rw [absI32_size hw] at h
       by_cases hpos : 0 < lcp.len
       · simp only [hpos, if_true] at h
@@ -233,7 +250,7 @@ theorem lcp_loop_chk (matchLen : Slice → Slice → Int) (hml : MatchLenSpec ma
         exact absurd h (by simp)
     · have hk' : ¬ i32n k = 0 := fun e => hk (hkz.2 e)
       simp only [hk', if_false] at h
-      simp only [hk, if_false]
+      split_by hk
       have hkpos : 1 ≤ k.toInt := by
         unfold i32n at hk'; omega
       have hkm : (k - 1).toInt = k.toInt - 1 := by
@@ -275,31 +292,32 @@ theorem lcp_loop_chk (matchLen : Slice → Slice → Int) (hml : MatchLenSpec ma
           rw [gset_ok lcp k.toInt (i32n k) (by unfold i32n; omega) hc3]
           simp only [bind_ok]
           have hw' := gset_wf hw (i32n k) L
-          -- l-- if l > 0
-          have hdec : ∃ L2 : Int32, (if L > 0 then (L - 1) else L) = L2 ∧ 0 ≤ L2.toInt ∧
-              L2.toInt.toNat = l.toInt.toNat + m - 1 := by
-            by_cases hLp : L > 0
-            · have : 0 < L.toInt := by
-                have := (i32_lt_iff 0 L).1 hLp; rwa [i32_zero] at this
-              have hs : (L - 1).toInt = L.toInt - 1 := by
-                rw [i32_sub _ _ (by rw [i32_one]; omega) (by rw [i32_one]; omega), i32_one]
-              refine ⟨L - 1, by simp [hLp], by omega, by omega⟩
-            · have : ¬ 0 < L.toInt := by
-                intro hh; apply hLp; show (0 : Int32) < L; rw [i32_lt_iff, i32_zero]; exact hh
-              refine ⟨L, by simp [hLp], by omega, by omega⟩
-          obtain ⟨L2, hL2, hL2n, hL2v⟩ := hdec
-          have h' : kasaiLoopChk t.data (absI32 sa) (absI32 sainv) n (i + 1) L2.toInt.toNat
-              (absI32 { lcp with arr := lcp.arr.set (i32n k) L }) = some r := by
-            rw [absI32_set, hL2v]
-            have : i32n L = l.toInt.toNat + m := by unfold i32n; omega
-            rw [this]; exact h
-          obtain ⟨lcp', l', e1, e2, e3, e4, e5, e6⟩ := ih (i + 1) _ L2 r (by omega) hw' hL2n h'
-          refine ⟨lcp', l', ?_, e2, e3, by simpa using e4, by simpa using e5, ?_⟩
-          · have e1' : suffix__lcp_loop_1 matchLen sainv sa t n ((i : Int) + 1) { lcp with arr := lcp.arr.set (i32n k) L } L2
-                = Res.ok (lcp', l') := by simpa using e1
-            rw [← e1', ← hL2]
-          · have e6' : lcp'.arr.drop lcp.len = (lcp.arr.set (i32n k) L).drop lcp.len := e6
+          -- the rest of the loop for any decremented value `L2`
+          have key : ∀ L2 : Int32, 0 ≤ L2.toInt → L2.toInt.toNat = l.toInt.toNat + m - 1 →
+              ∃ lcp' l', suffix__lcp_loop_1 matchLen sainv sa t n ((i : Int) + 1)
+                  { lcp with arr := lcp.arr.set (i32n k) L } L2 = Res.ok (lcp', l') ∧
+                absI32 lcp' = r ∧ GWF lcp' ∧ lcp'.len = lcp.len ∧ lcp'.arr.length = lcp.arr.length ∧
+                lcp'.arr.drop lcp.len = lcp.arr.drop lcp.len := by
+            intro L2 hL2n hL2v
+            have h' : kasaiLoopChk t.data (absI32 sa) (absI32 sainv) n (i + 1) L2.toInt.toNat
+                (absI32 { lcp with arr := lcp.arr.set (i32n k) L }) = some r := by
+              rw [absI32_set, hL2v]
+              have : i32n L = l.toInt.toNat + m := by unfold i32n; omega
+              rw [this]; exact h
+            obtain ⟨lcp', l', e1, e2, e3, e4, e5, e6⟩ := ih (i + 1) _ L2 r (by omega) hw' hL2n h'
+            refine ⟨lcp', l', by simpa using e1, e2, e3, by simpa using e4, by simpa using e5, ?_⟩
+            have e6' : lcp'.arr.drop lcp.len = (lcp.arr.set (i32n k) L).drop lcp.len := e6
             rw [e6', drop_set_lt _ _ _ _ hc3]
+          -- l-- if l > 0
+          have hs : 0 < L.toInt → (L - 1).toInt = L.toInt - 1 := fun _ => by
+            rw [i32_sub _ _ (by rw [i32_one]; omega) (by rw [i32_one]; omega), i32_one]
+          split
+          · rename_i hLp
+            i32_norm at hLp
+            refine key _ ?_ ?_ <;> (have := hs hLp; omega)
+          · rename_i hLp
+            i32_norm at hLp
+            refine key _ ?_ ?_ <;> omega
         · simp only [hc, if_false] at h
           exact absurd h (by simp)
       · rw [absI32_getElem?_none hsa _ hks] at h
